@@ -157,6 +157,33 @@ static int run(const ZI* const* full, int nfull, int mk) {
       nsave += 2;
     }
   }
+  // histories: a manager with fewer cached processors than zones in play. A zone is used twice, two other zones then
+  // take over both cached processors, and the first zone is used again: the zone created earlier and the zone restored
+  // from its saved form (after one of the other zones was used once more) must both still answer like a zone with a
+  // processor of its own, and compare equal
+  {
+    MGR small((uint16_t) nfull, full);
+    ZP own;
+    const acetime_t t = (acetime_t) 600000000;
+    for (int i = 0; i + 2 < nfull; i++) {
+      TimeZone ref = TimeZone::forZoneInfo(full[i], &own);
+      int want = ref.getUtcOffset(t).toMinutes();
+      std::string wantAbbrev = ref.getAbbrev(t);
+      TimeZone a = small.createForZoneIndex((uint16_t) i);
+      TimeZoneData d = a.toTimeZoneData();
+      a.getUtcOffset(t); a.getUtcOffset(t);
+      TimeZone b = small.createForZoneIndex((uint16_t) (i + 1)), c = small.createForZoneIndex((uint16_t) (i + 2));
+      b.getUtcOffset(t); c.getUtcOffset(t);
+      if (a.getUtcOffset(t).toMinutes() != want) fail("managed zone used again after other zones took over the cached processors answers with a foreign offset");
+      b.getAbbrev(t);
+      TimeZone r = small.createForTimeZoneData(d);
+      if (!(r == a)) fail("zone restored after its cached processor was taken over does not equal the zone created earlier");
+      if (r.getUtcOffset(t).toMinutes() != want) fail("zone restored after its cached processor was taken over answers with a foreign offset");
+      c.getUtcOffset(t); b.getUtcOffset(t);
+      if (std::string(a.getAbbrev(t)) != wantAbbrev) fail("managed zone used again after other zones took over the cached processors answers with a foreign abbreviation");
+      if (std::string(r.getAbbrev(t)) != wantAbbrev) fail("restored zone used again after other zones took over the cached processors answers with a foreign abbreviation");
+    }
+  }
   // a user-defined registry that is not sorted but begins with its smallest name, of a size at which a sorted registry
   // would be searched by bisection: every zone is found by name, by id and by index, and restores to itself
   {
